@@ -286,6 +286,10 @@ class Interp:
         self.paths = []
         self.aborted = []       # paths that end in a certain panic (unwrap of None/Err, diverging call)
         self.root = fpath
+        owner = fn
+        while owner.get("kind") == "Closure" and owner.get("parent") in self.facts.fns:
+            owner = self.facts.fns[owner["parent"]]
+        self.root_adt = (self.facts.impl_of(owner) or {}).get("self_head") if owner else None
         for (s2, ret) in self.exec_body(st, frame, 0):
             self.paths.append(Path(s2.events, ret, s2.facts, s2.variants, s2))
             if len(self.paths) > MAX_PATHS:
@@ -1143,7 +1147,10 @@ class Models:
 
     # names of the RawLRU fields of composite caches whose capacity equals the cache's resident bound `size`
     # (filled in by rules/lib/composite.py from the constructors; empty = no room reasoning)
-    resident_bound_fields = frozenset()
+    resident_bound_fields = {}        # cache ADT -> names of its RawLRU fields whose capacity is the cache's `size` in every constructor
+
+    def rb(self, interp):
+        return self.resident_bound_fields.get(getattr(interp, "root_adt", None), frozenset())
     # P1 relies on K's Eq/Hash being consistent (a stored key is found again). Memory safety must not: C03.R7 re-runs with this off.
     assume_consistent_eq = True
     # scalar fields of a composite that hold the same value as the cap of one of its lists, e.g. protected_size -> protected
@@ -1238,7 +1245,7 @@ class Models:
                         and Xm[1] == capl[1] and Xm[2][:-1] == capl[2][:-1] and len(Xm[2]) >= 2:
                     fld = Xm[2][-2]
                     root = (Xm[1], Xm[2][:-2])
-                    if fld in self.resident_bound_fields and st.slack.get(root, 0) >= 1 and x[2] == st.lenver.get(Xm, 0):
+                    if fld in self.rb(interp) and st.slack.get(root, 0) >= 1 and x[2] == st.lenver.get(Xm, 0):
                         return {"Ge": 0, "Eq": 0, "Gt": 0, "Lt": 1, "Ne": 1, "Le": 1}.get(o)
         # an entry was removed from this very list / len < cap was established, and nothing was inserted since (len <= cap is I_list)
         r = self._len_vs_cap(a, b, op) if op in ("Lt", "Le", "Gt", "Ge", "Eq", "Ne") else None
@@ -1308,7 +1315,7 @@ class Models:
         for l in lens:
             if not (isinstance(l, tuple) and l[0] == "len" and l[1][0] == "H" and len(l[1][2]) >= 2 and l[1][2][-1] == "map"):
                 return
-            if l[1][2][-2] not in self.resident_bound_fields or l[2] != st.lenver.get(l[1], 0):
+            if l[1][2][-2] not in self.rb(interp) or l[2] != st.lenver.get(l[1], 0):
                 return
             roots.add((l[1][1], l[1][2][:-2]))
         if len(roots) != 1 or lens[0][1] == lens[1][1]:
@@ -2081,8 +2088,8 @@ class Models:
     def _is_node_map(self, info):
         return "NonNull<lru::raw::EntryNode" in info["f"].get("self_ty", "")
 
-    def _slack(self, st, X, d):
-        if X[0] == "H" and len(X[2]) >= 2 and X[2][-1] == "map" and X[2][-2] in self.resident_bound_fields:
+    def _slack(self, interp, st, X, d):
+        if X[0] == "H" and len(X[2]) >= 2 and X[2][-1] == "map" and X[2][-2] in self.rb(interp):
             root = (X[1], X[2][:-2])
             st.slack[root] = st.slack.get(root, 0) + d
 
@@ -2168,7 +2175,7 @@ class Models:
                     s2.lenver[X] = s2.lenver.get(X, 0) + 1
                     s2.lencount[X] = s2.lencount.get(X, 0) - 1
                     s2.roomx[X] = True
-                    self._slack(s2, X, +1)
+                    self._slack(interp, s2, X, +1)
                     outs.append((s2, some(node)))
                 else:
                     s2.member[(X, ks)] = False
@@ -2228,7 +2235,7 @@ class Models:
         ks = k[3][0] if isinstance(k, tuple) and k[0] == "agg" and k[1] == "adt" and k[2][0].endswith("KeyRef") else k
         cid = st.fresh()
         slack = None
-        if X[0] == "H" and len(X[2]) >= 2 and X[2][-2] in self.resident_bound_fields:
+        if X[0] == "H" and len(X[2]) >= 2 and X[2][-2] in self.rb(interp):
             slack = st.slack.get((X[1], X[2][:-2]), 0)
         interp.event(st, fr, {"ev": "call", "q": info["q"], "hm": "insert", "recv": X, "keysrc": ks, "key": k, "value": info["args"][2], "id": cid, "slack": slack,
                               "args": info["args"], "ln": info["ln"], "bb": info["bb"], "unwind": info["unwind"], "user": True, "f": info["f"]})
@@ -2237,7 +2244,7 @@ class Models:
         st.lencount[X] = st.lencount.get(X, 0) + 1
         st.nonempty[X] = st.lenver[X]
         st.roomx.pop(X, None)
-        self._slack(st, X, -1)
+        self._slack(interp, st, X, -1)
         return [(st, ("call", cid, info["q"]))]
 
     def _fresh_map(self, interp, st, X):
